@@ -164,7 +164,7 @@ from elementpath.xpath_tokens import XPathMap as _XMap, XPathArray as _XArr  # n
 JSON_TEXTS = ('1e20', '1e-10', '100', '1200', '0.5', '-2.50', '{"a":null}', '[null]', '{"a":[]}', '{"a":{}}', '[[]]', '"x"', 'true', 'null',
               '[1,{"b":[null,false]}]', '{"a":[],"b":{"c":[],"d":[[]]}}', '[12345678901234567890]', '{"k":1e5,"l":[1.5e-7]}',
               '{"a\\"b":1}', '{"a<b":"c&d"}', '"it\'s \\"q\\""', '{"":[""]}',
-              '"a\\\\qb"', '{"k\\\\q":[null,true,{"a\\nb":"x\\\\y"}]}', '"\\\\u00"', '"\\\\"')
+              '1.5e20', '[2.5e-10, -1.25e300, 1.25e100]', '"a\\\\qb"', '{"k\\\\q":[null,true,{"a\\nb":"x\\\\y"}]}', '"\\\\u00"', '"\\\\"')
 P31B = P31.__class__(base_uri='http://example.com/base/')
 TB_ = {False: parse_all({'x2j_esc': 'xml-to-json(json-to-xml($t, map{"escape": true()}))', 'x2j': 'xml-to-json(json-to-xml($t))', 'pj': 'parse-json($t)', 'ser': 'serialize(parse-json($t), map{"method": "json"})'}),
        True: parse_all({'x2j_esc': 'xml-to-json(json-to-xml($t, map{"escape": true()}))', 'x2j': 'xml-to-json(json-to-xml($t))', 'pj': 'parse-json($t)', 'ser': 'serialize(parse-json($t), map{"method": "json"})'}, parser=P31B)}
@@ -197,17 +197,17 @@ def _norm(j):
     return j
 
 
-@ob(budget=200, bound='JSON text from a table of 26 (exponent numbers, nulls, empty arrays/objects as members, nested shapes; index chosen by the '
+@ob(budget=200, bound='JSON text from a table of 28 (exponent numbers, nulls, empty arrays/objects as members, nested shapes; index chosen by the '
                       'solver) x parser with / without a static base URI: xml-to-json(json-to-xml(t)), parse-json(t) and '
                       'serialize(parse-json(t), json) all denote the value an independent JSON parser reads from t',
     funcs=['elementpath/xpath31/_xpath31_functions.py:evaluate__xml_to_json', 'elementpath/xpath31/_xpath31_functions.py:evaluate__json_to_xml',
            'elementpath/xpath31/_xpath31_functions.py:evaluate__parse_json', 'elementpath/serialization.py:serialize_to_json'])
 def json_texts_roundtrip(ti: int, base: bool) -> bool:
     """
-    pre: 0 <= ti <= 25
+    pre: 0 <= ti <= 27
     post: _
     """
-    t = JSON_TEXTS[[k for k in range(26) if k == ti][0]]
+    t = JSON_TEXTS[[k for k in range(28) if k == ti][0]]
     toks = TB_[True if base else False]
     want = _norm(_json.loads(t))
     for key in ('x2j', 'x2j_esc'):
@@ -223,19 +223,28 @@ def json_texts_roundtrip(ti: int, base: bool) -> bool:
 # --- XML round trip with an XML declaration and apostrophes / quotes in text and attribute values (concrete documents; expat is C code) ----
 
 import xml.etree.ElementTree as _CET17  # noqa: E402
-XML_DOCS = ('<a k="it\'s">it\'s</a>', "<a k='say &quot;hi&quot;'>x</a>", '<a>x<b k="1">y</b>z</a>', "<a><b>'</b><c k=\"'\"/></a>", '<a/>')
+XML_DOCS = ('<a>it\'s<?pi data?></a>', '<a x="it\'s"><b>\'</b><?p q?>t</a>', '<a k="it\'s">it\'s</a>', "<a k='say &quot;hi&quot;'>x</a>", '<a>x<b k="1">y</b>z</a>', "<a><b>'</b><c k=\"'\"/></a>", '<a/>')
 T_XML17 = parse_all({'rt': 'deep-equal(parse-xml(serialize(., map{"omit-xml-declaration": $omit})), .)', 'txt': 'serialize(., map{"omit-xml-declaration": $omit})'})
 
 
-@ob(budget=60, tbudget=300, kind='hunt', bound='5 documents with apostrophes and quotes in text and attribute values (index chosen by the solver) x '
+def _LXDOC(text):
+    """lxml keeps processing instructions (xml.etree drops them); fall back to ElementTree when lxml is missing"""
+    try:
+        import lxml.etree as _lx
+        return _lx.fromstring(text).getroottree()
+    except ImportError:      # pragma: no cover
+        return _CET17.ElementTree(_CET17.XML(text))
+
+
+@ob(budget=60, tbudget=300, kind='hunt', bound='7 documents with apostrophes and quotes in text and attribute values, two with a processing instruction after them (index chosen by the solver) x '
                                    'omit-xml-declaration true/false: parse-xml(serialize(doc)) is deep-equal to doc (expat is C code: bug-hunting)',
     funcs=['elementpath/serialization.py:serialize_to_xml'])
 def xml_roundtrip_with_declaration(i: int, omit: bool) -> bool:
     """
-    pre: 0 <= i <= 4
+    pre: 0 <= i <= 6
     post: _
     """
-    doc = _CET17.ElementTree(_CET17.XML(XML_DOCS[[k for k in range(5) if k == i][0]]))
+    doc = _LXDOC(XML_DOCS[[k for k in range(7) if k == i][0]])
     from harness.common import XPathContext as _C, L as _L
     r = _L(T_XML17['rt'].evaluate(_C(doc, variables={'omit': True if omit else False})))
     return r == [True]
